@@ -47,7 +47,7 @@ PROPS = {
         explanation='ordering and duplicate-freeness of node-sets in the evaluator skeleton: every value-returning eval_* function promises that a node-set value lists strictly increasing order keys (eval_path_expr / eval_filtered_loc_expr: non-strictly, after the sort); eval_union_expr must re-establish it over the concatenation of its operands, eval_filter_expr must keep it through predicate filtering (so positional predicates on a parenthesised node-set count in document order)',
     ),
     'C06': dict(
-        verus_units=['eval_ctx'],
+        verus_units=['eval_ctx', 'func_strings'],
         level='proof',
         trusted_base=TRUSTED_VERUS,
         assumptions=[A2, A9, A10, A11, A8],
@@ -65,12 +65,16 @@ PROPS = {
         explanation='classification half of C18: every is_* predicate of nom/src/xmlchar.rs equals the production range table for every char; Verus (SMT, all chars) and Kani (loop-free, kani::any::<char>(), complete) as two independent back ends',
     ),
     'C09': dict(
+        verus_units=['func_strings'],
         kani=['c09'],
         level='proof',
-        trusted_base=TRUSTED_KANI,
-        assumptions=[A1, A6, A7, A8, 'CBMC reports NaN-producing float operations (inf - inf inside round) as failed checks of class "NaN on ..."; NaN is specified XPath behaviour, so that class is classified as expected and only assertion/panic/integer classes count'],
-        not_decided='everything in C09 except floor/ceiling/round: string functions (substring, string-length, translate, normalize-space, ...), number<->string lexical forms, arithmetic operators, comparisons and boolean()/number() coercions (Kani did not finish harnesses over a symbolic Boolean|Number operand in 15 min; symbolic strings never finish)',
-        explanation='rounding clause of C09: the real xpath::eval::func::{floor,ceiling,round} called on Value::Number(x) for every f64 x (loop-free, complete): NaN, infinities and zeros are preserved bit for bit, the result is integral, floor/ceiling bracket x, round is the closest integer with ties towards positive infinity and -0 for [-0.5, 0)',
+        trusted_base=TRUSTED_KANI + TRUSTED_VERUS,
+        assumptions=[A1, A2 + ' (Verus side: chars().count(), chars().skip().take().collect(), String::len as the UTF-8 byte length, usize -> f64 cast uninterpreted)', A6, A7, A8,
+                     'CBMC reports NaN-producing float operations (inf - inf inside round, inf + -inf, inf * 0) as failed checks of class "NaN on ..."; NaN is specified XPath behaviour, so that class is classified as expected and only assertion/panic/integer classes count',
+                     'substring_range is proved for string lengths up to 2^53 characters (positions beyond are not representable as XPath numbers)',
+                     'Verus side: String::try_from(&Value) / f64::try_from(&Value) are assumed callees (what an argument converts to is an uninterpreted function of the argument); substring_range enters the Verus unit through the part of its contract Kani proves (ordered, within the string)'],
+        not_decided='number<->string lexical forms (f64::to_string / str::parse did not finish under Kani and Verus has no floats: number("1e3") = 1000 and number(" 1 ") = NaN on the real code are NOT decided here); mod (CBMC models fmod nondeterministically); operands of kind Text or node-set in comparisons and arithmetic; concat, starts-with, contains, substring-before/after, normalize-space, translate (thin wrappers over str methods); function lookup and arity (func::table() does not compile under Kani)',
+        explanation='scalar semantics of the core library on the real crate: floor/ceiling/round/xpath_round for every f64 (ties towards +infinity, -0 for [-0.5,0)); boolean()/not()/number() coercions for every number and boolean; unary minus; the six comparison operators on every pair of Boolean/Number operands (coercion order of XPath 3.4, every comparison with NaN false except !=); + - * div as IEEE 754 (thorough tier); substring: substring_range selects exactly the positions round(start) <= p < round(start)+round(length) for every f64 and every length/position (Kani, loop-free), and substring() returns the characters of that range (Verus, all strings); string-length counts characters (Verus, String::len given its byte-length contract)',
     ),
     'C16': dict(
         verus_units=['c16_chardata'],
@@ -152,10 +156,10 @@ MANIFEST_TEXT = {
         technique='contract-based deductive verification (Verus postconditions on extracted real functions; complete loop-free Kani harnesses)',
         design_ref='DESIGN.md §4 C18'),
     'C09': dict(
-        level_text='Proof (Kani/CBMC, loop-free, every f64: complete, no unwinding) that the real floor, ceiling and round functions follow XPath 1.0 4.4 including NaN, infinities, signed zeros and the tie rule. Rounding clause of C09 only.',
-        level_note='Trusted: Kani+CBMC+SAT, the inert-node harness trick (A7), declarative reference written from the XPath text. Not decided: all string functions, conversions, operators, comparisons.',
-        technique='contract-based verification with Kani: the contract of each function asserted in a loop-free harness over kani::any::<f64>() on the real crate (no stubs)',
-        design_ref='DESIGN.md §4 C09, §8'),
+        level_text='Proof on the real crate, two engines. Kani/CBMC, loop-free harnesses over kani::any (complete, no unwinding): floor, ceiling, round, xpath_round for every f64; boolean/not/number coercions; unary minus; = != < <= > >= on every Boolean/Number operand pair; substring_range for every f64 start/length, every string length <= 2^53 and every position; + - * div in the thorough tier. Verus (all strings): string-length counts characters; substring returns the characters of the range substring_range computes. Lexical number<->string forms, mod, Text/node-set operands and the remaining string functions are NOT decided.',
+        level_note='Trusted: Kani+CBMC+SAT, Verus+Z3, the inert-node harness trick (A7), declarative references written from the XPath text, std shims on the Verus side. The two engines meet at the contract of substring_range.',
+        technique='contract-based verification: contracts asserted in loop-free Kani harnesses over full-domain symbolic scalars on the real crate (no stubs), and Verus postconditions on extracted real functions with the Kani-proved callee contract assumed',
+        design_ref='DESIGN.md §4 C09, §8, §9'),
     'C16': dict(
         level_text='Proof (Verus, unbounded: all contents, offsets, counts) that length/substring_data/insert_data/delete_data/append_data/replace_data/set_data on text, comment and CDATA nodes compute the DOM Level 1 result over the character sequence (offset past the end = IndexSizeErr, count clipped to the end), with no overflow or std panic, through three layers of real functions each checked against its callees\' contracts. split_text and XmlExpandedText not covered.',
         level_note='Trusted: Verus+Z3, extractor, std iterator shims, the nom validity checkers as uninterpreted predicates (A3), RefCell modelled as plain ownership (A4).',
